@@ -30,6 +30,7 @@
 -/
 import PdshVerif.Hostlist.PrintRound2
 import PdshVerif.Hostlist.PrintCallers
+import PdshVerif.Hostlist.PrintMore
 
 namespace PdshVerif.C14
 open PdshVerif.Hostlist PdshVerif.Hostlist.Print
@@ -316,6 +317,97 @@ theorem listPushHostlist_repaired_text (h : HL) (hg : GoodRecords h) (hne : NoEm
     (listPushHostlist true h).2 = some (PrintSpec.rangedText h) := by
   simp only [listPushHostlist, ↓reduceIte]
   exact listPushLoop_text h hg hne hz hlen 12 XLIST_BUF (by decide) (by decide)
+
+/-- `list_push_hostlist`, repaired loop, with the heap block made explicit: EVERY call of
+    `hostlist_ranged_string` in the retry loop - whatever the list, however often the buffer was
+    doubled - is entered with a block of exactly `n` bytes (`Realloc` follows `n *= 2`), announces
+    `n − 1`, and stores only at indices below that -/
+theorem listPushHostlist_in_capacity (h : HL) :
+    ∀ a ∈ listPushTrace h 12 XLIST_BUF XLIST_BUF,
+      a.cap = a.n + 1 ∧ (∀ w ∈ a.buf.log, w.1 < a.n) ∧ a.buf.neg = false :=
+  listPushTrace_in_capacity h 12 XLIST_BUF (by decide)
+
+/-! ### bracket grouping as a function of the record list -/
+/-- GROUPING.  The groups the specification renders (and, by `rangedText_eq`, the model prints one
+    `_get_bracketed_list` call each) are THE partition of the record list into maximal runs: their
+    concatenation is the list; inside a group every record may share a bracket with its successor
+    (both range records, same prefix); across a boundary the two neighbours may not -/
+theorem groups_are_maximal_runs (h : HL) :
+    PrintSpec.MaximalRuns h.ranges.toList (PrintSpec.groups h.ranges.toList) :=
+  groups_maximalRuns h.ranges.toList
+
+/-- `_is_bracket_needed(hl, i)` answers yes exactly when the group starting at `hr[i]` (the records
+    one `_get_bracketed_list` call prints) stands for more than one host -/
+theorem bracket_iff_several_hosts (cur : HRange) (rest : List HRange) (hg : ∀ x ∈ cur :: rest, x.Good) :
+    isBracketNeeded cur rest.head? = true ↔ ((loopRun cur rest).flatMap HRange.hosts).length > 1 :=
+  isBracketNeeded_iff cur rest hg
+
+/-- `hostrange_numstr` never hides a truncation: it returns at most the length of the text it was
+    asked to print, exactly that length whenever the value is below the size it was given, and it
+    stores only inside `[p, p+m)` -/
+theorem numstr_reports_untruncated_length (b : Buf) (p m : Nat) (r : HRange) :
+    (hostrangeNumstr b p m r).2 ≤ (numText r).length ∧
+    ((hostrangeNumstr b p m r).2 < m → (hostrangeNumstr b p m r).2 = (numText r).length) ∧
+    (∀ w ∈ (hostrangeNumstr b p m r).1.log, w ∈ b.log ∨ (p ≤ w.1 ∧ w.1 < p + m)) :=
+  numstr_honest b p m r
+
+/-! ### the fixed buffers inside hostlist.c that are filled by the same functions -/
+/-- `hostlist_pop_range` (`char buf[MAXHOSTRANGELEN+1]`, size given MAXHOSTRANGELEN): in bounds and
+    NUL-terminated (the `strdup(buf)` that follows reads a terminated string), for ANY records -/
+theorem popRange_in_bounds (rs : List HRange) :
+    (∀ w ∈ (popRangeBuf rs).1.log, w.1 < RANGEBUF) ∧
+    ∃ k, k < RANGEBUF ∧ (popRangeBuf rs).1.mem k = some NUL := by
+  obtain ⟨h1, _, k, hk, h3⟩ := rangedStringL_safe PdshVerif.Gen.MAXHOSTRANGELEN (by decide) rs
+  refine ⟨fun w hw => ?_, k, ?_, h3⟩
+  · have := h1 w hw; unfold RANGEBUF; omega
+  · unfold RANGEBUF; omega
+
+/-- `hostlist_shift_range` (`char buf[1024]`, size given 1024) -/
+theorem shiftRange_in_bounds (rs : List HRange) :
+    (∀ w ∈ (shiftRangeBuf rs).1.log, w.1 < SHIFTRANGEBUF) ∧
+    ∃ k, k < SHIFTRANGEBUF ∧ (shiftRangeBuf rs).1.mem k = some NUL := by
+  obtain ⟨h1, _, h3⟩ := rangedStringL_safe SHIFTRANGEBUF (by decide) rs
+  exact ⟨h1, h3⟩
+
+/-- `hostlist_next_range` (`_get_bracketed_list` straight into `char buf[MAXHOSTRANGELEN+1]`) -/
+theorem nextRange_in_bounds (cur : HRange) (rest : List HRange) :
+    (∀ w ∈ (nextRangeBuf cur rest).1.log, w.1 < RANGEBUF) ∧
+    ∃ k, k < RANGEBUF ∧ (nextRangeBuf cur rest).1.mem k = some NUL := by
+  obtain ⟨h1, k, hk, h3⟩ := nextRangeBuf_safe cur rest
+  refine ⟨fun w hw => ?_, k, ?_, h3⟩
+  · have := h1 w hw; unfold RANGEBUF; omega
+  · unfold RANGEBUF; omega
+
+/-! ### one host name into a heap block -/
+/-- `hostlist_next` / `_hostrange_string` (`hostlist_nth`), repaired D17 / D24: the block of
+    `strlen(prefix) + max(width, 20) + 1` bytes is never overrun and - every number below 2^64 having
+    at most 20 digits - always holds the WHOLE name -/
+theorem hostlist_next_whole_name (r : HRange) (k : Nat) (hk : k < U64) (hz : NUL ∉ r.pre) :
+    (∀ w ∈ (formatHost (nextSize r) r k).1.log, w.1 < nextSize r) ∧
+    (formatHost (nextSize r) r k).1.text (nextSize r) = some (r.pre ++ fmtPad r.width k) := by
+  obtain ⟨h1, h2⟩ := formatHost_safe (nextSize r) r k
+  refine ⟨h1, ?_⟩
+  have h20 := ndig_le_20 hk
+  rcases h2 (by unfold nextSize; split <;> omega) with h | h
+  · exact h
+  · rcases List.mem_append.mp h with h | h
+    · exact absurd h hz
+    · exact absurd (fmtPad_allDigits _ _ _ h) (by decide)
+
+/-- `hostrange_shift` / `hostrange_pop` (`hostlist_shift`, `hostlist_pop`): the block of
+    `strlen(prefix) + width + 16` bytes is never overrun; it holds the whole name when the number has
+    at most `width + 15` digits (every record the parser creates: `ShiftFits` of C01) -/
+theorem hostrange_shift_in_bounds (r : HRange) (k : Nat) (hz : NUL ∉ r.pre) :
+    (∀ w ∈ (formatHost (shiftSize r) r k).1.log, w.1 < shiftSize r) ∧
+    (ndig k ≤ r.width + 15 →
+      (formatHost (shiftSize r) r k).1.text (shiftSize r) = some (r.pre ++ fmtPad r.width k)) := by
+  obtain ⟨h1, h2⟩ := formatHost_safe (shiftSize r) r k
+  refine ⟨h1, fun hd => ?_⟩
+  rcases h2 (by unfold shiftSize; omega) with h | h
+  · exact h
+  · rcases List.mem_append.mp h with h | h
+    · exact absurd h hz
+    · exact absurd (fmtPad_allDigits _ _ _ h) (by decide)
 
 end PdshVerif.C14
 
